@@ -2,8 +2,8 @@
 C13 (random slice) — the random module's begin block never halts (for block time unix ≠ 0,
 the boundary recorded as F-rnd-1), handles every due request exactly once, and the request
 queue is hygienic on every reachable state (every entry sits under the id of its own request
-and is due at the current height or later — for due heights inside `int64`, the class
-excluded by F-rnd-2). In this module the queue entry *is* the pending request (there is no
+and is due at the current height or later — for every block interval: the handler rejects
+intervals whose due height does not fit `int64`, fix f728afa / F-rnd-2). In this module the queue entry *is* the pending request (there is no
 separate object table), so "queue entries <-> pending requests" is the statement that the key
 of every entry is determined by its request and by nothing else.
 -/
